@@ -321,6 +321,9 @@ def make_image(nrng, shape, kind):
         return a
     if kind == 'quantity':
         return nrng.normal(0, 10, shape) * u.Jy
+    if kind == 'quantity-scaled-dimensionless':
+        # percent, per-mille, "kilo" counts: dimensionless but scaled units (a bare number is NOT in these units)
+        return nrng.normal(0, 10, shape) * [u.percent, u.Unit(0.001), u.Unit(1000.0), u.dimensionless_unscaled][int(nrng.integers(4))]
     return nrng.normal(0, 10, shape)
 
 
@@ -386,7 +389,7 @@ def run_case(case, obs):
         shape = (int(nrng.integers(0, 3)), int(nrng.integers(0, 3)))
     elif nrng.random() < 0.12:
         shape = (box[3] - box[2], box[1] - box[0])            # an image of exactly the mask's shape (the box may or may not sit at the origin)
-    kind = ['int16', 'int64', 'float32', 'float64', 'float64-nonfinite', 'quantity', 'uint16', 'bool', 'view', 'view', 'int64-big'][nrng.integers(11)]
+    kind = ['int16', 'int64', 'float32', 'float64', 'float64-nonfinite', 'quantity', 'uint16', 'bool', 'view', 'view', 'int64-big', 'quantity-scaled-dimensionless'][nrng.integers(12)]
     image = make_image(nrng, shape, kind)
     fills = [0.0, 7.0, -1.5, np.nan, np.inf, -np.inf]
     if kind.startswith('int'):
